@@ -53,50 +53,54 @@ Ltac cexpr_step :=
 
 (* ---------------------------------------------------------------- stepping [exec] one statement at a time
    ([exec] recurses on its fuel: normalising it under a condition that is not yet decided unfolds without bound) *)
-Lemma exec_set f rho tr k x e r v :
-  ceval rho e = Some v -> exec (S f) rho tr (SSet k x e :: r) = exec f (upd rho x v) tr r.
+Lemma exec_set f m rho tr k x e r v :
+  ceval rho m e = Some v -> exec (S f) m rho tr (SSet k x e :: r) = exec f m (upd rho x v) tr r.
 Proof. intros H. cbn [exec]. rewrite H. reflexivity. Qed.
 
-Lemma exec_call f rho tr k g args r vs :
-  evals rho args = Some vs -> exec (S f) rho tr (SCall k g args :: r) = exec f rho (tr ++ [(g, vs)]) r.
+Lemma exec_call f m rho tr k g args r vs :
+  evals rho m args = Some vs -> exec (S f) m rho tr (SCall k g args :: r) = exec f m rho (tr ++ [(g, vs)]) r.
 Proof. intros H. cbn [exec]. rewrite H. reflexivity. Qed.
 
-Lemma exec_if_true f rho tr k c a b r v :
-  ceval rho c = Some v -> v <> 0 ->
-  exec (S f) rho tr (SIf k c a b :: r) = match exec f rho tr a with Fell rho' tr' => exec f rho' tr' r | o => o end.
+Lemma exec_if_true f m rho tr k c a b r v :
+  ceval rho m c = Some v -> v <> 0 ->
+  exec (S f) m rho tr (SIf k c a b :: r) = match exec f m rho tr a with Fell rho' tr' => exec f m rho' tr' r | o => o end.
 Proof. intros H Hv. cbn [exec]. rewrite H. destruct (Z.eqb_spec v 0); [contradiction | reflexivity]. Qed.
 
-Lemma exec_if_false f rho tr k c a b r :
-  ceval rho c = Some 0 ->
-  exec (S f) rho tr (SIf k c a b :: r) = match exec f rho tr b with Fell rho' tr' => exec f rho' tr' r | o => o end.
+Lemma exec_if_false f m rho tr k c a b r :
+  ceval rho m c = Some 0 ->
+  exec (S f) m rho tr (SIf k c a b :: r) = match exec f m rho tr b with Fell rho' tr' => exec f m rho' tr' r | o => o end.
 Proof. intros H. cbn [exec]. rewrite H. reflexivity. Qed.
 
-Lemma exec_if_skip f rho tr k c a r :
-  ceval rho c = Some 0 -> exec (S (S f)) rho tr (SIf k c a [] :: r) = exec (S f) rho tr r.
+Lemma exec_if_skip f m rho tr k c a r :
+  ceval rho m c = Some 0 -> exec (S (S f)) m rho tr (SIf k c a [] :: r) = exec (S f) m rho tr r.
 Proof. intros H. rewrite exec_if_false by exact H. reflexivity. Qed.
 
-Lemma exec_if_b2z f rho tr k c a r (b : bool) :
-  ceval rho c = Some (b2z b) ->
-  exec (S (S f)) rho tr (SIf k c a [] :: r) =
-    if b then match exec (S f) rho tr a with Fell rho' tr' => exec (S f) rho' tr' r | o => o end
-    else exec (S f) rho tr r.
+Lemma exec_if_b2z f m rho tr k c a r (b : bool) :
+  ceval rho m c = Some (b2z b) ->
+  exec (S (S f)) m rho tr (SIf k c a [] :: r) =
+    if b then match exec (S f) m rho tr a with Fell rho' tr' => exec (S f) m rho' tr' r | o => o end
+    else exec (S f) m rho tr r.
 Proof.
   intros H. destruct b.
   - rewrite exec_if_true with (v := 1) by (exact H || discriminate). reflexivity.
   - apply exec_if_skip. exact H.
 Qed.
 
-Lemma exec_ret f rho tr k e r v :
-  ceval rho e = Some v -> exec (S f) rho tr (SRet k (Some e) :: r) = Returned (Some v) rho tr.
+Lemma exec_ret f m rho tr k e r v :
+  ceval rho m e = Some v -> exec (S f) m rho tr (SRet k (Some e) :: r) = Returned (Some v) rho tr.
 Proof. intros H. cbn [exec]. rewrite H. reflexivity. Qed.
 
-Lemma exec_nil f rho tr : exec (S f) rho tr [] = Fell rho tr.
+Lemma exec_clobber f m rho tr x r :
+  exec (S f) m rho tr (SClobber x :: r) = exec f m (clobber rho (length tr) x) tr r.
+Proof. reflexivity. Qed.
+
+Lemma exec_nil f m rho tr : exec (S f) m rho tr [] = Fell rho tr.
 Proof. reflexivity. Qed.
 
 (* evaluation of a concrete expression under an environment built with [upd]: unfold the evaluator only, leave the
    integer operations, [wrap] and [arith] folded, then discharge the conversions by range *)
 Ltac ceval_unfold :=
-  cbv beta iota zeta delta [ceval evals binop b2z upd String.eqb Ascii.eqb Bool.eqb negb String.append u8 s8 u16 s16 u32 s32 u64 s64].
+  cbv beta iota zeta delta [ceval evals binop b2z c_bits c_signed upd String.eqb Ascii.eqb Bool.eqb negb String.append u8 s8 u16 s16 u32 s32 u64 s64].
 
 Ltac wrap_ids :=
   repeat match goal with
@@ -120,10 +124,210 @@ Ltac exec_steps :=
                | erewrite exec_ret by ceval_now
                | erewrite exec_if_b2z by ceval_now ].
 
-(* the copies of a trace, in order, fill [a, fin) without gap or overlap *)
-Fixpoint writes_from (a : Z) (tr : list event) (fin : Z) : Prop :=
-  match tr with
-  | [] => a = fin
-  | (f, [d; _; n]) :: r => f = "memcpy"%string /\ d = a /\ 0 <= n /\ writes_from (a + n) r fin
-  | _ => False
-  end.
+
+(* ---------------------------------------------------------------- additions used by Proofs/SitesProofs.v *)
+Lemma arith_u32 v : 0 <= v < 4294967296 -> arith (mkty false 32) v = Some v.
+Proof. intros; unfold arith; cbn [c_signed]. unfold modulus; cbn [c_bits]. rewrite Z.mod_small by exact H. reflexivity. Qed.
+
+(* a conditional with both branches, the condition being a comparison *)
+Lemma exec_if_gen f m rho tr k c a b r (bb : bool) :
+  ceval rho m c = Some (b2z bb) ->
+  exec (S f) m rho tr (SIf k c a b :: r) =
+    match exec f m rho tr (if bb then a else b) with Fell rho' tr' => exec f m rho' tr' r | o => o end.
+Proof.
+  intros H. destruct bb.
+  - rewrite exec_if_true with (v := 1) by (exact H || discriminate). reflexivity.
+  - rewrite exec_if_false by exact H. reflexivity.
+Qed.
+
+(* deciding the comparisons left in a goal from the hypotheses *)
+Lemma gtb_true a b : b < a -> (a >? b) = true.
+Proof. intros. destruct (Z.gtb_spec a b); [reflexivity | lia]. Qed.
+Lemma gtb_false a b : a <= b -> (a >? b) = false.
+Proof. intros. destruct (Z.gtb_spec a b); [lia | reflexivity]. Qed.
+Lemma geb_true a b : b <= a -> (a >=? b) = true.
+Proof. intros. destruct (Z.geb_spec a b); [reflexivity | lia]. Qed.
+Lemma geb_false a b : a < b -> (a >=? b) = false.
+Proof. intros. destruct (Z.geb_spec a b); [lia | reflexivity]. Qed.
+Lemma ltb_true a b : a < b -> (a <? b) = true.
+Proof. intros. destruct (Z.ltb_spec a b); [reflexivity | lia]. Qed.
+Lemma ltb_false a b : b <= a -> (a <? b) = false.
+Proof. intros. destruct (Z.ltb_spec a b); [lia | reflexivity]. Qed.
+Lemma leb_true a b : a <= b -> (a <=? b) = true.
+Proof. intros. destruct (Z.leb_spec a b); [reflexivity | lia]. Qed.
+Lemma leb_false a b : b < a -> (a <=? b) = false.
+Proof. intros. destruct (Z.leb_spec a b); [lia | reflexivity]. Qed.
+Lemma eqb_true a b : a = b -> (a =? b) = true.
+Proof. intros. destruct (Z.eqb_spec a b); [reflexivity | lia]. Qed.
+Lemma eqb_false a b : a <> b -> (a =? b) = false.
+Proof. intros. destruct (Z.eqb_spec a b); [lia | reflexivity]. Qed.
+
+Ltac decide_bools :=
+  repeat match goal with
+         | |- context [?a >? ?b] => first [ rewrite (gtb_true a b) by lia | rewrite (gtb_false a b) by lia ]
+         | |- context [?a >=? ?b] => first [ rewrite (geb_true a b) by lia | rewrite (geb_false a b) by lia ]
+         | |- context [?a <? ?b] => first [ rewrite (ltb_true a b) by lia | rewrite (ltb_false a b) by lia ]
+         | |- context [?a <=? ?b] => first [ rewrite (leb_true a b) by lia | rewrite (leb_false a b) by lia ]
+         | |- context [?a =? ?b] => first [ rewrite (eqb_true a b) by lia | rewrite (eqb_false a b) by lia ]
+         end.
+
+(* run a body whose conditionals are all decided by the hypotheses: one statement, then the comparison it exposed.
+   [cbv beta iota] does not unfold [exec] (no delta): it only selects the decided branch and passes a finished
+   branch's outcome on. *)
+Ltac exec_step1 :=
+  first [ erewrite exec_set by ceval_now
+        | erewrite exec_call by ceval_now
+        | erewrite exec_ret by ceval_now
+        | rewrite exec_nil
+        | erewrite exec_if_gen by ceval_now ].
+Ltac exec_run := repeat (exec_step1; decide_bools; cbv beta iota).
+
+(* the value of one site *)
+Ltac site_unfold S :=
+  unfold S;
+  cbv beta iota zeta delta [site ceval evals binop b2z upd String.eqb Ascii.eqb Bool.eqb negb String.append
+                            u8 s8 u16 s16 u32 s32 u64 s64].
+Ltac site_now S := site_unfold S; wrap_ids; reflexivity.
+
+(* equality of traces up to linear arithmetic on the arguments *)
+Ltac list_eq :=
+  repeat match goal with
+         | |- @eq Z _ _ => lia
+         | |- _ :: _ = _ :: _ => apply f_equal2
+         | |- (_, _) = (_, _) => apply f_equal2
+         | |- Some _ = Some _ => apply f_equal
+         | |- _ => reflexivity
+         end.
+
+Lemma Returned_eq v v' rho rho' (tr tr' : list event) :
+  v = v' -> rho = rho' -> tr = tr' -> Returned v rho tr = Returned v' rho' tr'.
+Proof. intros; subst; reflexivity. Qed.
+
+(* bitwise facts for the CRC step *)
+Lemma land_1_odd x : Z.land x 1 = Z.b2z (Z.odd x).
+Proof.
+  change 1 with (Z.ones 1). rewrite Z.land_ones by lia. change (2 ^ 1) with 2.
+  rewrite <- Z.bit0_mod, Z.bit0_odd. reflexivity.
+Qed.
+
+Lemma lxor_u32 a b : 0 <= a < 4294967296 -> 0 <= b < 4294967296 -> 0 <= Z.lxor a b < 4294967296.
+Proof.
+  intros Ha Hb. assert (H0 : 0 <= Z.lxor a b) by (apply Z.lxor_nonneg; lia).
+  split; [exact H0 |].
+  destruct (Z.eq_dec (Z.lxor a b) 0) as [E | E]; [lia |].
+  change 4294967296 with (2 ^ 32). apply Z.log2_lt_pow2; [lia |].
+  pose proof (Z.log2_lxor a b (proj1 Ha) (proj1 Hb)) as Hl.
+  assert (La : Z.log2 a < 32).
+  { destruct (Z.eq_dec a 0) as [-> | Na]; [cbn; lia |]. apply Z.log2_lt_pow2; [lia |]. change (2 ^ 32) with 4294967296. lia. }
+  assert (Lb : Z.log2 b < 32).
+  { destruct (Z.eq_dec b 0) as [-> | Nb]; [cbn; lia |]. apply Z.log2_lt_pow2; [lia |]. change (2 ^ 32) with 4294967296. lia. }
+  lia.
+Qed.
+
+Lemma shiftr1_u32 x : 0 <= x < 4294967296 -> 0 <= Z.shiftr x 1 < 4294967296.
+Proof.
+  intros H. rewrite Z.shiftr_div_pow2 by lia. change (2 ^ 1) with 2.
+  split; [apply Z.div_pos; lia | apply Z.div_lt_upper_bound; lia].
+Qed.
+
+Lemma lnot_u32 x : 0 <= x < 4294967296 -> wrap (mkty false 32) (Z.lnot x) = Z.lxor x 4294967295.
+Proof.
+  intros H. unfold wrap, modulus; cbn [c_signed c_bits]. change 4294967295 with (Z.ones 32).
+  rewrite <- Z.land_ones by lia. apply Z.bits_inj'; intros i Hi.
+  rewrite Z.land_spec, Z.lxor_spec, Z.lnot_spec by lia.
+  destruct (Z_lt_le_dec i 32).
+  - rewrite Z.ones_spec_low by lia. destruct (Z.testbit x i); reflexivity.
+  - rewrite Z.ones_spec_high by lia. rewrite andb_false_r, xorb_false_r. symmetry.
+    rewrite <- (Z.mod_small x (2 ^ 32)) by (change (2 ^ 32) with 4294967296; lia).
+    apply Z.mod_pow2_bits_high; lia.
+Qed.
+
+(* loops: one unit of fuel per test of the condition; the body and the step run with what is left *)
+Lemma exec_loop_enter f m rho tr k c body step r v :
+  ceval rho m c = Some v -> v <> 0 ->
+  exec (S f) m rho tr (SLoop k true c body step :: r) =
+    match exec f m rho tr body with
+    | Fell rho2 tr2 => match exec f m rho2 tr2 step with
+                       | Fell rho3 tr3 => exec f m rho3 tr3 (SLoop k true c body step :: r)
+                       | o => o end
+    | o => o end.
+Proof. intros H Hv. cbn [exec]. rewrite H. destruct (Z.eqb_spec v 0); [contradiction | reflexivity]. Qed.
+
+Lemma exec_loop_exit f m rho tr k c body step r :
+  ceval rho m c = Some 0 ->
+  exec (S f) m rho tr (SLoop k true c body step :: r) = exec f m rho tr r.
+Proof. intros H. cbn [exec]. rewrite H. reflexivity. Qed.
+
+Lemma exec_loop_b2z f m rho tr k c body step r (b : bool) :
+  ceval rho m c = Some (b2z b) ->
+  exec (S f) m rho tr (SLoop k true c body step :: r) =
+    if b then
+      match exec f m rho tr body with
+      | Fell rho2 tr2 => match exec f m rho2 tr2 step with
+                         | Fell rho3 tr3 => exec f m rho3 tr3 (SLoop k true c body step :: r)
+                         | o => o end
+      | o => o end
+    else exec f m rho tr r.
+Proof.
+  intros H. destruct b.
+  - apply exec_loop_enter with (v := 1); [exact H | discriminate].
+  - apply exec_loop_exit. exact H.
+Qed.
+
+(* do { body } while (c): the first pass does not test the condition *)
+Lemma exec_loop_do f m rho tr k c body step r :
+  exec (S f) m rho tr (SLoop k false c body step :: r) =
+    match exec f m rho tr body with
+    | Fell rho2 tr2 => match exec f m rho2 tr2 step with
+                       | Fell rho3 tr3 => exec f m rho3 tr3 (SLoop k true c body step :: r)
+                       | o => o end
+    | o => o end.
+Proof. reflexivity. Qed.
+
+(* more fuel does not change a run that did not run out of it *)
+Lemma exec_fuel_mono : forall f m rho tr l o d,
+  exec f m rho tr l = o -> o <> NoFuel -> exec (f + d) m rho tr l = o.
+Proof.
+  induction f as [ | f IH]; intros m rho tr l o d He Ho.
+  - cbn [exec] in He. congruence.
+  - change (S f + d)%nat with (S (f + d)). destruct l as [ | s r].
+    + exact He.
+    + destruct s as [k x e | k g args | k c a b | k pre c body step | k e | x | w]; cbn [exec] in He |- *.
+      * destruct (ceval rho m e); [ apply IH; assumption | exact He ].
+      * destruct (evals rho m args); [ apply IH; assumption | exact He ].
+      * destruct (ceval rho m c) as [v | ]; [ | exact He ].
+        destruct (exec f m rho tr (if negb (v =? 0) then a else b)) as [rho1 tr1 | v1 rho1 tr1 | why | ] eqn:E.
+        -- rewrite (IH _ _ _ _ _ d E) by discriminate. apply IH; assumption.
+        -- rewrite (IH _ _ _ _ _ d E) by discriminate. exact He.
+        -- rewrite (IH _ _ _ _ _ d E) by discriminate. exact He.
+        -- congruence.
+      * assert (Hc : forall rho1 tr1,
+                  match exec f m rho1 tr1 body with
+                  | Fell rho2 tr2 => match exec f m rho2 tr2 step with
+                                     | Fell rho3 tr3 => exec f m rho3 tr3 (SLoop k true c body step :: r)
+                                     | o => o end
+                  | o => o end = o ->
+                  match exec (f + d) m rho1 tr1 body with
+                  | Fell rho2 tr2 => match exec (f + d) m rho2 tr2 step with
+                                     | Fell rho3 tr3 => exec (f + d) m rho3 tr3 (SLoop k true c body step :: r)
+                                     | o => o end
+                  | o => o end = o).
+        { intros rho1 tr1 H1.
+          destruct (exec f m rho1 tr1 body) as [rho2 tr2 | v2 rho2 tr2 | why | ] eqn:E; try congruence;
+            rewrite (IH _ _ _ _ _ d E) by discriminate; [ | exact H1 | exact H1 ].
+          destruct (exec f m rho2 tr2 step) as [rho3 tr3 | v3 rho3 tr3 | why | ] eqn:E'; try congruence;
+            rewrite (IH _ _ _ _ _ d E') by discriminate; [ | exact H1 | exact H1 ].
+          apply IH; assumption. }
+        destruct pre.
+        -- destruct (ceval rho m c) as [v | ]; [ | exact He ].
+           destruct (negb (v =? 0)); [ apply Hc; exact He | apply IH; assumption ].
+        -- apply Hc; exact He.
+      * exact He.
+      * apply IH; assumption.
+      * exact He.
+Qed.
+
+Lemma exec_fuel_le f g m rho tr l o :
+  (f <= g)%nat -> exec f m rho tr l = o -> o <> NoFuel -> exec g m rho tr l = o.
+Proof. intros Hle He Ho. replace g with (f + (g - f))%nat by lia. apply exec_fuel_mono; assumption. Qed.
+
